@@ -132,8 +132,13 @@ func runSeamD(t *testing.T, run *evid.Run, agg *mc.Agg) {
 	// sanity, sequentially: the forged chain is refused, the authentic one accepted
 	conf1, _ := f.verifier.ConfigForPeer("")
 	conf2, _ := f.verifier.ConfigForPeer(sID)
-	if e1, e2 := conf1.VerifyPeerCertificate([][]byte{forged}, nil), conf2.VerifyPeerCertificate([][]byte{genuine}, nil); e1 == nil || e2 != nil {
-		evid.Fatal("seam D fixtures: sequential verdicts are not (forged refused, authentic accepted): forged err=%v authentic err=%v", e1, e2)
+	// (after the concurrent scenarios: the process has verified both chains before)
+	e1, e2 := conf1.VerifyPeerCertificate([][]byte{forged}, nil), conf2.VerifyPeerCertificate([][]byte{genuine}, nil)
+	if e1 == nil {
+		run.Violation("accepts/binding-signature-over-a-different-key/sequential-after-concurrent-scenarios", "seam D: a self-signed certificate for the attacker's key carrying S's binding extension was accepted in a plain sequential verification (after the same process had verified S's authentic certificate)", "seam-d/sequential")
+	}
+	if e2 != nil {
+		run.Violation("rejects-authentic/seam-d-sequential", fmt.Sprintf("seam D: S's authentic certificate (yielding key type) was refused in a plain sequential verification: %v", e2), "seam-d/sequential")
 	}
 	_ = fmt.Sprint
 	_ = p2ptls.NewIdentity
